@@ -41,3 +41,34 @@ Example C06_lpcm_example :
    | None => []
    end) = [[(65535, 18, 0); (0, 9, 2)]; [(1, 9, 0)]] /\ ssize_of 18 = 9.
 Proof. split; vm_compute; reflexivity. Qed.
+
+(* ---- the translated kernels (tools/go2coq, spec.d/lpcm.txt + spec.txt; regenerated from the Go source on every run) ----
+   rtplpcm/encoder.go: e.sampleSize = e.BitDepth*e.ChannelCount/8, e.maxPayloadSize = (e.PayloadMaxSize/e.sampleSize)*
+   e.sampleSize, (e).packetCount(slen), the last-packet test payloadSize > len(samples[pos:]), timestamp +=
+   uint32(payloadSize/e.sampleSize), Marker: false, e.sequenceNumber++ ARE the formulas of Model.ssize_of / mp / enc /
+   enc_loop (None = the division-by-zero panics of sampleSize = 0 and maxPayloadSize = 0). *)
+From Coq Require Import ZArith.
+From GVG Require Import Kern.
+From GV_lpcm Require Import BridgeLib Bridge.
+Open Scope Z_scope.
+Theorem C06_lpcm_kernels_are_the_code : forall (depth chans max ss len mpv psz ts s : N) (rest : bytes),
+  Z.of_N (depth * chans) < i64max -> Z.of_N max < i64max -> Z.of_N len < i64max -> Z.of_N mpv < i64max ->
+  Z.of_N psz < i64max -> (ts < 4294967296)%N ->
+  k_lpcm_ssize (Z.of_N depth) (Z.of_N chans) = Z.of_N (depth * chans / 8) /\
+  k_lpcm_budget (Z.of_N max) (Z.of_N ss) = (if (ss =? 0)%N then None else Some (Z.of_N (mp ss max))) /\
+  k_lpcm_packetCount (Z.of_N len) (Z.of_N mpv) =
+    (if (mpv =? 0)%N then None else Some (Z.of_N (len / mpv + (if (len mod mpv =? 0)%N then 0 else 1)))) /\
+  k_lpcm_short (Z.of_N psz) (Z.of_N (nlen rest)) = (nlen rest <? psz)%N /\
+  k_lpcm_ts (Z.of_N ts) (Z.of_N psz) (Z.of_N ss) =
+    (if (ss =? 0)%N then None else Some (Z.of_N ((ts + psz / ss) mod 4294967296))) /\
+  k_lpcm_marker = false /\
+  k_lpcm_seq (Z.of_N s) = Z.of_N (seq_next s).
+Proof. exact enc_kernels_are_the_code. Qed.
+Print Assumptions C06_lpcm_kernels_are_the_code.
+
+Example C06_lpcm_example_kernels :
+  k_lpcm_ssize 24 2 = 6 /\ k_lpcm_budget 1450 6 = Some 1446 /\ k_lpcm_budget 1450 0 = None /\ k_lpcm_budget 5 6 = Some 0 /\
+  k_lpcm_packetCount 1446 1446 = Some 1 /\ k_lpcm_packetCount 1447 1446 = Some 2 /\ k_lpcm_packetCount 10 0 = None /\
+  k_lpcm_short 1446 1445 = true /\ k_lpcm_short 1446 1446 = false /\ k_lpcm_ts 4294967295 12 6 = Some 1 /\
+  k_lpcm_seq 65535 = 0.
+Proof. vm_compute. repeat split. Qed.
